@@ -470,10 +470,8 @@ static void case_c09(const Spec& spec0, int alg, const std::string& sigma_act, c
     if (sx::is_const(m0)) sx::check_le(bb, a, t2 + ": a >= b");   // with a symbolic m0 the order follows from a^2-b^2 = m0^2*sqrt(.) >= 0, which z3 does not decide in 20 s: not queried
     sx::check_ge0(alfa, t2 + ": bearing >= 0"); sx::check_lt(alfa, sx::constant(mpq_class(M_PI)), t2 + ": bearing < pi");
     Real s2 = sin(alfa + alfa), c2 = cos(alfa + alfa);
-    if (sx::numeric(a) != sx::numeric(bb) || !sx::is_const(a)) {
-      sx::check_zero((cxx - cyy) * s2 - sx::rat(2) * cxy * c2, t2 + ": bearing is an eigen-direction");
-      sx::check_ge0((cxx - cyy) * c2 + sx::rat(2) * cxy * s2, t2 + ": bearing belongs to the major axis");
-    }
+    sx::check_zero((cxx - cyy) * s2 - sx::rat(2) * cxy * c2, t2 + ": bearing is an eigen-direction");
+    sx::check_ge0((cxx - cyy) * c2 + sx::rat(2) * cxy * s2, t2 + ": bearing belongs to the major axis");
   }
   // changing only sigma-apr rescales v'Pv and nothing else
   if (sigma_apr2 != 0) {
@@ -503,6 +501,58 @@ static void same_printed(Real got, Real want, const std::string& label, sx::f64 
     sx::check_true(::fabs(a - b) <= (abs_tol > 0 ? abs_tol : (sx::f64)1e-6 * sc), label + " (to the printed precision)", sx::show(got) + " vs " + sx::show(want)); }
   else sx::check_eq(got, want, label);
 }
+
+// C04 at network level: every quantity a LocalNetwork can be asked for has one value whatever was asked before
+struct NOp { std::string name; int kind; int a = 0; };   // kind 0..: queries ; 20.. state changes
+static std::vector<Real> net_ask(Built& b, const NOp& o) {
+  LocalNetwork* IS = b.net.IS.get(); std::vector<Real> v;
+  switch (o.kind) {
+    case 0: { const GNU_gama::local::Vec& x = IS->solve(); for (int i = 1; i <= x.dim(); i++) v.push_back(x(i)); } break;
+    case 1: { const GNU_gama::local::Vec& r = IS->residuals(); for (int i = 1; i <= r.dim(); i++) v.push_back(r(i)); } break;
+    case 2: v.push_back(IS->trans_VWV()); break;
+    case 3: v.push_back(sx::rat(IS->degrees_of_freedom())); break;
+    case 4: v.push_back(IS->m_0()); break;
+    case 5: v.push_back(IS->qxx(1, IS->unknowns_count())); break;
+    case 6: v.push_back(IS->qbb(2, 2)); break;
+    case 7: v.push_back(IS->stdev_obs(1)); v.push_back(IS->wcoef_res(IS->observations_count())); break;
+    case 8: { GNU_gama::local::Mat A; GNU_gama::local::Vec bb, w; IS->project_equations(A, bb, w);
+              for (int i = 1; i <= A.rows(); i++) { v.push_back(bb(i)); v.push_back(w(i)); for (int j = 1; j <= A.cols(); j++) v.push_back(A(i, j)); } } break;
+    case 9: v.push_back(sx::rat(IS->null_space())); break;
+    case 10: v.push_back(IS->unknown_stdev(1)); v.push_back(IS->obs_control(1)); break;
+    case 11: v.push_back(sx::rat(IS->lindep(1) ? 1 : 0)); v.push_back(sx::rat(IS->lindep(IS->unknowns_count()) ? 1 : 0)); break;
+    case 20: IS->update_points(); break; case 21: IS->update_observations(); break; case 22: IS->update_residuals(); break; case 23: IS->update_adjustment(); break;
+    case 24: IS->set_algorithm(ALGS[o.a]); break;
+  }
+  return v;
+}
+static void case_c04_net(const Spec& spec, int alg0, int first, int maxlen) {
+  std::vector<NOp> ops{{"solve", 0}, {"residuals", 1}, {"trans_VWV", 2}, {"degrees_of_freedom", 3}, {"m_0", 4}, {"qxx(1,n)", 5}, {"qbb(2,2)", 6}, {"stdev_obs/wcoef_res", 7}, {"project_equations(A,b,w)", 8}, {"null_space", 9}, {"unknown_stdev/obs_control", 10}, {"lindep", 11},
+                       {"update_points", 20}, {"update_observations", 21}, {"update_residuals", 22}, {"update_adjustment", 23}, {"set_algorithm(envelope)", 24, 0}, {"set_algorithm(cholesky)", 24, 1}, {"set_algorithm(gso)", 24, 2}};
+  // the symbolic errors are declared once; every network built below shares them
+  std::vector<Real> vals; { size_t k = 0; for (auto& c : spec.cl) for (auto& o : c.obs) { vals.push_back(sym_value(o.val, (int)k, Q(1, 10))); k++; } }
+  auto fresh_net = [&](Built& b, int alg) -> bool {
+    b.spec = spec; if (!b.net.parse(gkf(spec))) return false; b.obs = b.net.all_obs(); b.val = vals; b.active.assign(b.obs.size(), true);
+    for (size_t k = 0; k < b.obs.size(); k++) b.obs[k]->set_value(vals[k]); b.net.prepare(ALGS[alg], false); return true; };
+  std::map<std::string, std::vector<Real>> memo;
+  auto fresh_answer = [&](int alg, const NOp& o) -> const std::vector<Real>& { std::string key = std::to_string(alg) + "|" + o.name; auto it = memo.find(key); if (it != memo.end()) return it->second;
+    Built f; fresh_net(f, alg); return memo[key] = net_ask(f, o); };
+  long nseq = 0;
+  std::function<void(std::vector<int>&)> rec = [&](std::vector<int>& seq) {
+    const NOp& last = ops[seq.back()];
+    if (last.kind < 20) {
+      Built b; if (!fresh_net(b, alg0)) { sx::fail("generated input rejected", ""); return; }
+      int alg = alg0; std::string desc; std::vector<Real> got;
+      for (size_t k = 0; k < seq.size(); k++) { const NOp& op = ops[seq[k]]; desc += (k ? "; " : "") + op.name; if (op.kind == 24) alg = op.a; std::vector<Real> r = net_ask(b, op); if (k + 1 == seq.size()) got = r; }
+      const std::vector<Real>& want = fresh_answer(alg, last); nseq++;
+      sx::check_true(got.size() == want.size(), "LocalNetwork history {" + desc + "} size of the answer", "");
+      if (got.size() == want.size()) for (size_t i = 0; i < got.size(); i++) sx::check_eq(got[i], want[i], "LocalNetwork history {" + desc + "} component " + std::to_string(i + 1));
+    }
+    if ((int)seq.size() < maxlen) for (int t = 0; t < (int)ops.size(); t++) { seq.push_back(t); rec(seq); seq.pop_back(); }
+  };
+  std::vector<int> seq{first}; rec(seq);
+  sx::note("sequences", std::to_string(nseq)); sx::reached("net-c04");
+}
+
 // C12: the adjustment XML is read back by gama's own result reader without loss
 static void case_c12(const Spec& spec0, int alg, int covband) {
   // a priori reference deviation and observation errors below 0.01 mm: the writer compares every standardised residual
@@ -632,6 +682,9 @@ static std::vector<Spec> linear_family(const sx::Options& opt) {
   }
   { Spec s = vectors("vec3-coords", 3, {{1,2},{2,3},{3,1}}, "aaa", rng, 1); add_coordinates(s, {"V1", "V2"}, true, true, rng, true); v.push_back(s); }
   { Spec s = levelling("lev4-coordz", 4, chain4, "aaaa", rng, 2); add_coordinates(s, {"H2"}, false, true, rng, false); v.push_back(s); }
+  // observed coordinates with a different set of components per point (xyz, xy only, z only; the z-only one directly after the xy-only one)
+  { Spec s = vectors("vec3-coords-mixed", 3, {{1,2},{2,3},{3,1}}, "aaa", rng, 0); add_coordinates_mixed(s, {{"V1", 3}, {"V2", 1}, {"V3", 2}}, rng, true); v.push_back(s); }
+  { Spec s = vectors("vec3-coords-mixed2", 3, {{1,2},{2,3}}, "aaa", rng, 1); add_coordinates_mixed(s, {{"V3", 2}, {"V1", 1}, {"V2", 2}, {"V3", 1}}, rng, false); v.push_back(s); }
   return v;
 }
 
@@ -690,6 +743,9 @@ static void gen_cases(const sx::Options& opt, std::vector<sx::Case>& cases) {
     }
     for (int kind = 0; kind < 4; kind++) add("net-c10/reject/kind" + std::to_string(kind), "malformed covariance matrices", [kind] { case_c10_reject(kind); });
   }
+  if (on("C04")) { int k = 0; for (auto& s : fam) { if (s.name != "lev5-fixed1/cov2" && s.name != "lev5-free-c2/cov1" && s.name != "vec4-fixed1/cov1") continue; int alg0 = (k++) % 3;
+      for (int first = 0; first < 19; first++) { auto sp = std::make_shared<Spec>(s); int ml = th ? 3 : 2;
+        add("net-c04/" + s.name + "/" + ALGS[alg0] + "/first" + std::to_string(first), "LocalNetwork histories", [sp, alg0, first, ml] { case_c04_net(*sp, alg0, first, ml); }); } } }
   if (on("C12")) { int si = -1; static const int bands[] = {-1, 0, 1, 3, 2}; for (auto& s : fam) { si++; for (int bi = 0; bi < 5; bi++) { if (!th && bi != si % 5 && bi != (si + 2) % 5) continue; int cb = bands[bi]; int alg = (si + bi) % 3; auto sp = std::make_shared<Spec>(s);
       add("net-c12/" + s.name + "/" + ALGS[alg] + "/band" + std::to_string(cb), "XML result read back", [sp, alg, cb] { case_c12(*sp, alg, cb); }); } } }
   if (on("C13")) { int k = 0; for (auto& s : fam) { int alg = (k++) % 3; auto sp = std::make_shared<Spec>(s); int rounds = th ? 3 : 2;
@@ -703,6 +759,9 @@ static void gen_cases(const sx::Options& opt, std::vector<sx::Case>& cases) {
     st.push_back(levelling("lev3-dof0", 3, {{1,2},{2,3}}, "faa", rng, 0));            // dof = 0
     st.push_back(levelling("lev3-dof1", 3, {{1,2},{2,3},{3,1}}, "faa", rng, 0));      // dof = 1
     st.push_back(levelling("lev4-dof2", 4, {{1,2},{2,3},{3,4},{4,1},{1,3}}, "faaa", rng, 1));
+    // observed coordinates and one baseline with diagonal covariances: x and y decoupled, so the xy cofactor is exactly zero
+    // also in floating point and the ellipse is axis-parallel (major axis along x or along y)
+    for (int k = 0; k < 3; k++) { Spec s = vectors("gnss-like" + std::to_string(k), 2, {{1,2}}, "aa", rng, 0); add_coordinates(s, {"V1", "V2"}, true, true, rng, false); add_coordinates(s, {"V2", "V1"}, true, false, rng, false); st.push_back(s); }
     int k = 0;
     for (auto& s : st) for (int alg = 0; alg < 3; alg++) for (int act = 0; act < 2; act++) {
       if (!th && (k++ % 2)) continue;
